@@ -365,8 +365,14 @@ Definition resolve_or_place (st : state) (f : string) : callee * state :=
   match resolve st f with
   | Some c => (c, st)
   | None =>
-      let a := List.length (heap st) in
-      (CD f a, mkSt (heap st ++ [mkLam f [] [] true []]) ((f, a) :: lambdas st) ((f, a) :: funcs st) (marks st) (out st))
+      match slookup f (lambdas st) with
+      (* a Lambda is registered but the name has no creator (after fmakunbound): it is reused, not replaced
+         (repo_fixes/C08-6) *)
+      | Some c => (CD f c, mkSt (heap st) (lambdas st) ((f, c) :: funcs st) (marks st) (out st))
+      | None =>
+          let a := List.length (heap st) in
+          (CD f a, mkSt (heap st ++ [mkLam f [] [] true []]) ((f, a) :: lambdas st) ((f, a) :: funcs st) (marks st) (out st))
+      end
   end.
 Definition marked (st : state) (e : sexp) : bool :=
   match e with
@@ -553,12 +559,20 @@ Definition compile_rest (st : state) (fs : list tform) : state :=
                         | TQuote _ => s end) fs st.
 
 (* Package.Undefine (fmakunbound): the FuncInfo of the name is removed from Package.funcs; the Lambda registered in
-   Package.lambdas stays (so that a later defun patches the Lambda the compiled callers hold) - and so do the
-   compiled callers, which keep calling it as it is *)
+   Package.lambdas stays registered - it is the one the compiled callers hold and the next defun patches - and
+   becomes the Lambda of an undefined function again (repo_fixes/C08-5), so those callers signal undefined-function *)
 Fixpoint sremove {A} (k : string) (l : list (string * A)) : list (string * A) :=
   match l with [] => [] | (k', v) :: r => if String.eqb k k' then sremove k r else (k', v) :: sremove k r end.
 Definition fmakM (st : state) (name : string) : state :=
-  mkSt (heap st) (lambdas st) (sremove name (funcs st)) (marks st) (out st).
+  match slookup name (funcs st) with
+  | None => st
+  | Some _ =>
+      let hp := match slookup name (lambdas st) with
+                | Some c => set_nth (heap st) c (mkLam name [] [] true [])
+                | None => heap st
+                end in
+      mkSt hp (lambdas st) (sremove name (funcs st)) (marks st) (out st)
+  end.
 
 Record mstate := mkM { ms : state; mgv : env; codes : list (nat * list tform) }.
 Definition minit : mstate := mkM init [] [].
